@@ -60,7 +60,7 @@ def _is(cls, *vals):
 # Fixed (C12).  cfg: {'p': int}.  ops: raw operands a, b, c (SymInt or int)
 
 def _F(cfg):
-    return init_fixed(cfg['p'])
+    return init_fixed(cfg['p'], cfg.get('d'))
 
 
 def fx_addsub(cfg, a, b, c):
